@@ -25,7 +25,10 @@ import (
 	"github.com/emersion/go-webdav/verifharness/fw"
 	"github.com/emersion/go-webdav/verifharness/model/davtree"
 	"github.com/emersion/go-webdav/verifharness/mon"
+	"github.com/emersion/go-webdav/verifharness/xmltree"
 )
+
+var xmltreeOpts = xmltree.CmpOpts{IgnoreComments: true, IgnoreWhitespace: true}
 
 // Monitors selects which oracles report.
 type Monitors struct {
@@ -42,6 +45,7 @@ type Env struct {
 	Resolved string // symlink-resolved root
 	H        http.Handler
 	cur      string // shape currently on disk ("" = unknown)
+	cwdSaved string // working directory to return to after a relative root spelling
 }
 
 // NewEnv creates <workdir>/<label>/sandbox-…/root with a long random-looking
@@ -75,7 +79,13 @@ func NewEnvAt(c *fw.Ctx, mon Monitors, base string) (*Env, error) {
 		H: &webdav.Handler{FileSystem: webdav.LocalFileSystem(root)}}, nil
 }
 
-func (e *Env) Close() { os.RemoveAll(e.Base) }
+func (e *Env) Close() {
+	if e.cwdSaved != "" {
+		os.Chdir(e.cwdSaved)
+		e.cwdSaved = ""
+	}
+	os.RemoveAll(e.Base)
+}
 
 // UseRootSpelling re-creates the handler with the served directory configured
 // in a valid but non-canonical spelling (k < 0: the clean path): trailing
@@ -85,8 +95,25 @@ func (e *Env) UseRootSpelling(k int) string {
 	dir, base := filepath.Dir(e.Root), filepath.Base(e.Root)
 	spelled := e.Root
 	name := "clean"
+	if e.cwdSaved != "" {
+		os.Chdir(e.cwdSaved)
+		e.cwdSaved = ""
+	}
 	if k >= 0 {
-		switch k % 4 {
+		switch k % 6 {
+		case 4, 5:
+			// a root named relative to the working directory (as the
+			// command-line server does with "."): the worker changes into the
+			// root's parent for the time this handler is in use
+			if cwd, err := os.Getwd(); err == nil && os.Chdir(dir) == nil {
+				e.cwdSaved = cwd
+				spelled, name = base, "relative"
+				if k%6 == 5 {
+					spelled, name = "./"+base+"/", "relative-dot-slash"
+				}
+			}
+		}
+		switch k % 6 {
 		case 0:
 			spelled, name = e.Root+"/", "trailing-slash"
 		case 1:
@@ -668,6 +695,84 @@ func (e *Env) Probe(what string, pre davtree.Tree, p string, putETag string, hav
 		pt := strings.TrimSpace(strings.SplitN(pfType, ";", 2)[0])
 		if !strings.EqualFold(mt, pt) {
 			c.Report("content-type|GET-vs-PROPFIND", fmt.Sprintf("%s: GET says %q, PROPFIND says %q", what, gt, pfType), wit)
+		}
+	}
+}
+
+// propSig renders the properties of one multistatus response (names,
+// statuses, values) canonically.
+func propSig(rs davx.Response) string {
+	var l []string
+	for _, ps := range rs.PropStats {
+		for _, p := range ps.Props {
+			l = append(l, fmt.Sprintf("%s@%d=%s", p.Name(), ps.Status.Code, p.Canon(xmltreeOpts)))
+		}
+	}
+	sort.Strings(l)
+	return strings.Join(l, "\n")
+}
+
+// ListingConsistency asks for a whole listing (PROPFIND / with Depth infinity
+// and Depth 1 on every collection) and then for every listed resource alone
+// (Depth 0): what a listing says about a resource must be exactly what the
+// resource says about itself - same property names, statuses and values. It
+// catches state carried from one listed resource to the next.
+func (e *Env) ListingConsistency(what string, t davtree.Tree) {
+	if !e.Mon.Model {
+		return
+	}
+	c := e.C
+	for _, body := range []string{"", "five"} {
+		single := map[string]string{}
+		ask := func(p string, depth string) map[string]string {
+			resp := e.do(davtree.Req{Method: "PROPFIND", Path: p, Depth: depth, PropBody: body})
+			c.Eval(1)
+			if resp.Code != 207 {
+				return nil
+			}
+			ms, err := davx.ReadMultiStatus(resp.Body)
+			if err != nil {
+				return nil
+			}
+			m := map[string]string{}
+			for _, rs := range ms.Responses {
+				if len(rs.Paths) == 1 {
+					m[cleanHref(rs.Paths[0])] = propSig(rs)
+				}
+			}
+			return m
+		}
+		var colls []string
+		colls = append(colls, "/")
+		for p, n := range t {
+			if n.Dir {
+				colls = append(colls, p)
+			}
+		}
+		sort.Strings(colls)
+		check := func(list map[string]string, from string) {
+			for p, sig := range list {
+				if _, ok := single[p]; !ok {
+					if one := ask(p, "0"); one != nil {
+						single[p] = one[p]
+					}
+				}
+				if own, ok := single[p]; ok && own != sig {
+					c.Report("PROPFIND|listing-differs-from-the-resource-itself|body="+body,
+						fmt.Sprintf("%s: in the listing of %q the resource %q is described differently from its own Depth 0 answer", what, from, p),
+						map[string]interface{}{"tree": t.Shape(), "listing_of": from, "resource": p, "in_listing": sig, "alone": own})
+					return
+				}
+				c.Observe("probe", "listing-entries-compared-with-depth-0", 1)
+			}
+		}
+		if all := ask("/", "infinity"); all != nil {
+			check(all, "/ (Depth infinity)")
+		}
+		for _, cp := range colls {
+			if l := ask(cp, "1"); l != nil {
+				check(l, cp+" (Depth 1)")
+			}
 		}
 	}
 }
